@@ -35,12 +35,24 @@ def run(ctx):
     results = []
     n_car = 0
     for name, ad, cs, r in tied:
+        fine = []
         for c in cc.sample(cs, 30 if tier == "quick" else 300, rng):
             n, fails = cc.c15_failures(name, ad, c, rng, full=(tier != "quick"))
             n_car += n
             r["failures"] += fails
             r["evaluations"] += n
+            # the same case with limits 2^-30 inside the grid values: the data carriers must still agree
+            # (a comparison done in the carrier's own narrower precision cannot see such a limit)
+            f = cc.fine_variant(name, c)
+            if f is not None and ad.in_domain(f):
+                fine.append(f)
+                n, fails = cc.c15_failures(name, ad, f, rng, full=True, data_only=True)
+                n_car += n
+                r["failures"] += fails
+                r["evaluations"] += n
         results.append(r)
+        if fine:
+            results.append(adapters.run_adapter(ad, fine, rng, repeat_frac=0))      # and the model agrees on them
     # sub-second, irregular time axes (rate of change): every time carrier must give the same flags
     import fn_rate
     roc = fn_rate.Roc()
